@@ -380,6 +380,22 @@ func c13Run(t *testing.T, o *vOut, ca *vCA, sc c13Script) {
 				workerDone = c.end
 			}
 		}
+		// did the renewal succeed (somebody was answered with a new certificate)? With a hold beyond
+		// the worker's own 90 s time-out an "ok" issuer still means a failed renewal.
+		// Calls of phases 1 and 2 belong to the first worker's wave, phase 3 to the second: a wave's
+		// renewal succeeded if one of its calls (or of an earlier wave) got a new certificate.
+		wave := func(c *c13Call) int {
+			if c.phase < 3 {
+				return 1
+			}
+			return 2
+		}
+		firstSuccess := 99
+		for _, c := range calls {
+			if c.done && c.res == "new" && wave(c) < firstSuccess {
+				firstSuccess = wave(c)
+			}
+		}
 		for _, c := range calls {
 			if !c.done {
 				o.Mon("C13 call-never-completed", replay)
@@ -396,7 +412,10 @@ func c13Run(t *testing.T, o *vOut, ca *vCA, sc c13Script) {
 			if c.phase < 3 && c.end > tWorkerExit+time.Second && !strings.Contains(c.errStr, "timed out") {
 				o.Mon("C13 call-completes-later-than-worker-exit", map[string]any{"script": sc.String(), "end": c.end.String(), "workerExit": tWorkerExit.String(), "err": c.errStr})
 			}
-			if c.expiredServed && c.end < tWorkerExit && sc.outcome == "ok" {
+			// (the renewal of this script succeeds: whoever is answered with the expired certificate —
+			// before, at or after the instant the worker finishes — got it although the renewal
+			// could, and did, succeed)
+			if c.expiredServed && sc.outcome == "ok" && firstSuccess <= wave(c) {
 				o.Mon("C13 expired-certificate-served-while-renewal-in-flight", map[string]any{"script": sc.String(), "end": c.end.String()})
 			}
 			// … and a wait that ends by its time-out must have begun while a worker was still there:
